@@ -203,12 +203,13 @@ def decode_segwit_addr(
     hrp, data = bip173.parse_bech32(addr)
     assert data[:-6], "empty data"  # ignore checksum
     bech32_constant = 1
-    if bip173.bech32_int_map[data[0:1]] != 0 and __support_bip350:
+    if bip173.bech32_int_map.get(data[0:1], 0) != 0 and __support_bip350:
         bech32_constant = BECH32M_CONST
     bip173.assert_valid_bech32(hrp, data, constant=bech32_constant)
     witness_version = bip173.bech32_int_map[data[0:1]]
     assert witness_version in range(17), "witness version not in [0, 16]"
     data = data[1:-6]  # discard version byte and checksum
+    assert data, "empty witness program"
     witness_program = bip173.bech32_decode(data)
     return hrp, witness_version, witness_program
 
